@@ -6,6 +6,8 @@ EXTS = ['', '', '.txt', '.txt', '.png', '.gz', '.tar.gz', '.', '.d']
 FILTERS = [[], [], ['.txt'], ['.png', '.txt'], ['.gz'], ['.d'], ['.txt', '.']]
 ARGS = ['-', '-', 'a', 'a.b', '|k=v', 'a|k=v.j=w']
 TOPS = ['r', 'img', 'snd.d']
+# the container type file_exts is passed in (documented: Iterable[str]) - one-shot iterables included
+CONTAINERS = ['list', 'list', 'tuple', 'set', 'frozenset', 'dictkeys', 'dict', 'gen', 'iter', 'map', 'reversed']
 # spellings of the populator's root (harness/models/pop.py): trailing separator, '/.', relative to the working
 # directory, './x', '' and '.' with the root as working directory
 SPELLINGS = ['abs', 'abs', 'abs_s', 'abs_dot', 'rel', 'rel_s', 'dot_rel', 'rel_dot', 'empty', 'dot', 'dot_s']
@@ -61,11 +63,12 @@ def gen_c16(rng):
     for f in files:
         lines.append('fs file :' + '/'.join(f))
     nmaps = rng.randint(1, 2)
+    eq_mode = rng.random() < 0.3
     for k in range(nmaps):
-        lines.append(f'newmap m{k}')
+        lines.append(f'newmap m{k}' + (rng.choice(['', ' eq=A', ' ueq=A', ' falsy=1', ' eq=A falsy=1']) if eq_mode else ''))
     nh = rng.randint(0, 2)
     for k in range(nh):
-        lines.append(f'newhandle h{k} obj')
+        lines.append(f'newhandle h{k} obj' + (rng.choice([' eq=A', ' ueq=A', ' eq=A falsy=1']) if eq_mode else ''))
     npops = rng.randint(1, 2)
     for p in range(npops):
         lines.append(f'pop p{p} nest={rng.randint(0, 1)} trim={rng.randint(0, 1)} root={rng.choice(SPELLINGS)}')
@@ -83,7 +86,7 @@ def gen_c16(rng):
                 d = spell(rng, [rng.choice(tops)])
             exts = rng.choice(FILTERS)
             lines.append(f'rule p{p} :{d} fac={rng.randint(0, 2)} exts={",".join(exts) or "-"} '
-                         f'args={rng.choice(ARGS)}')
+                         f'args={rng.choice(ARGS)} cont={rng.choice(CONTAINERS)}')
     # keys that files will take (to aim pre-existing content and conflicts at them)
     keys = ['/'.join(f) for f in files] + ['/'.join(f[:-1] + [f[-1].rsplit('.', 1)[0] or f[-1]]) for f in files]
     unused = [f'h{k}' for k in range(nh)]
